@@ -1184,26 +1184,44 @@ func ruleLoadErrRange(c *Ctx) {
 				}
 				seen[b] = true
 				n++
-				excluded := false
-				for _, cc := range controlCondsPol(b) {
-					bo, ok := cc.Cond.(*ssa.BinOp)
-					if !ok || (bo.Op != token.EQL && bo.Op != token.NEQ) {
-						continue
+				// the construction - or, when it lives in a constructor helper, every call of that helper - is reached
+				// only when the kind is not the parse-error kind
+				var excludedAt func(b *ssa.BasicBlock, depth int) bool
+				excludedAt = func(b *ssa.BasicBlock, depth int) bool {
+					for _, cc := range controlCondsPol(b) {
+						bo, ok := cc.Cond.(*ssa.BinOp)
+						if !ok || (bo.Op != token.EQL && bo.Op != token.NEQ) {
+							continue
+						}
+						k, isK := bo.Y.(*ssa.Const)
+						x := bo.X
+						if !isK {
+							k, isK = bo.X.(*ssa.Const)
+							x = bo.Y
+						}
+						if !isK || k.Value == nil || k.Value.Kind() != constant.Int || k.Int64() != parseKind {
+							continue
+						}
+						kindRead := sliceReadsLoadErr(x, "Kind", isLoadErrField)
+						if kindRead && ((bo.Op == token.NEQ && cc.Taken) || (bo.Op == token.EQL && !cc.Taken)) {
+							return true
+						}
 					}
-					k, isK := bo.Y.(*ssa.Const)
-					x := bo.X
-					if !isK {
-						k, isK = bo.X.(*ssa.Const)
-						x = bo.Y
+					if depth >= 3 {
+						return false
 					}
-					if !isK || k.Value == nil || k.Value.Kind() != constant.Int || k.Int64() != parseKind {
-						continue
+					sites := cgView{c}.callersOf(b.Parent())
+					if len(sites) == 0 {
+						return false
 					}
-					kindRead := sliceReadsLoadErr(x, "Kind", isLoadErrField)
-					if kindRead && ((bo.Op == token.NEQ && cc.Taken) || (bo.Op == token.EQL && !cc.Taken)) {
-						excluded = true
+					for _, s := range sites {
+						if !excludedAt(s.Block(), depth+1) {
+							return false
+						}
 					}
+					return true
 				}
+				excluded := excludedAt(b, 0)
 				c.check(excluded, "C08-LOADERR", funcName(f), "diagnostic ranges taken from load errors exclude parse errors", st.Pos(),
 					"the diagnostic is built only for load errors whose range is the include directive's (kind is not the parse-error kind)",
 					"a diagnostic for the open document takes its range from a load error whose kind may be 'parse error': that range is a position inside the included file, so the diagnostic lands on unrelated text or outside the document")
